@@ -313,20 +313,26 @@ func (f *FieldCopyToGenerator) genListOrMap() *j.Statement {
 				),
 			)
 
+			if f.IsRepeated {
+				// It might happen that we changed the number of elements.
+				// This check creates a new array if that's the case (an empty one when the source is nil).
+				// Otherwise, we would have a panic at the last line in the For loop or extra elements.
+				g.If(j.Len(j.Id(fieldName)).Op("!=").Len(j.Id("c.Elems"))).Block(
+					j.Id("c.Elems").Op("=").Add(mk),
+				)
+			}
+			if f.IsMap {
+				// Keys which are not in the source anymore must not survive, all the others are set below.
+				g.If(j.Len(j.Id("c.Elems")).Op(">").Lit(0)).Block(
+					j.Id("c.Elems").Op("=").Add(mk),
+				)
+			}
+
 			g.If(j.Id(fieldName)).Op("!=").Nil().BlockFunc(func(g *j.Group) {
 				if (f.Kind == PrimitiveListKind) || (f.Kind == PrimitiveMapKind) {
 					g.Id("t").Op(":=").Id("o.ElemType")
 				} else {
 					g.Id("o").Op(":=").Id("o.ElemType").Assert(j.Id(f.i.WithType(f.ElemType)))
-				}
-
-				if f.IsRepeated {
-					// It might happen that we changed the number of elements.
-					// This check creates a new array if that's the case.
-					// Otherwise, we would have a panic at the last line in the For loop or extra elements.
-					g.If(j.Len(j.Id(fieldName)).Op("!=").Len(j.Id("c.Elems"))).Block(
-						j.Id("c.Elems").Op("=").Add(mk),
-					)
 				}
 
 				// for k, a := range obj.List
